@@ -297,4 +297,6 @@ if os.path.exists(TAIL):
 L.append("end KaVerif\n")
 open(OUT, "w", encoding="utf-8").write("\n".join(L))
 print("mkbodiesprops: %d theorems -> %s" % (len(names), OUT))
-open(os.path.join(V, "tools", "bodies_theorems.txt"), "w").write("\n".join("KaVerif." + n for n in names) + "\n")
+# theorems of the tail that are audited with the agreement theorems (harness/pipeline.py bodies_theorems())
+EXTRA = ["BODIES_evalG_instance"]
+open(os.path.join(V, "tools", "bodies_theorems.txt"), "w").write("\n".join("KaVerif." + n for n in names + EXTRA) + "\n")
